@@ -1,5 +1,5 @@
 (* C20 (native part): fields collections are self-consistent. *)
-From Errdef Require Import Base.Str Model.Core Model.GoErrors Model.Prog Check.C03.
+From Errdef Require Import Base.Str Base.Outcome Model.Core Model.GoErrors Model.Prog Model.Convert Model.Unmarshal Check.C03 Check.UM.
 
 (* what the harness observes of one Fields() collection *)
 Record fobs := {
@@ -7,12 +7,25 @@ Record fobs := {
   fo_zero : bool;
   fo_all : list (N * string);               (* All(): key id (or 999 for a key outside the pool), value repr *)
   fo_all2 : list (N * string);              (* a second iteration *)
-  fo_get : list (bool * string);            (* Get for every key of c_keys *)
-  fo_find : list (list N)                   (* FindKeys for every name of c_names, ids sorted ascending *)
+  fo_get : list (bool * string);            (* Get for every key of nc_keys *)
+  fo_find : list (list N)                   (* FindKeys for every name of nc_names, ids sorted ascending *)
 }.
 Inductive subject := OfDef (i : nat) | OfErr (i : nat).
-Record case := { c_prog : list stmt; c_keys : list key; c_names : list string;
-                 c_obs : list (subject * fobs) }.
+Record ncase := { nc_prog : list stmt; nc_keys : list key; nc_names : list string;
+                  nc_obs : list (subject * fobs) }.
+
+(* restored fields: what the accessors of a restored error's Fields() returned *)
+Record robs := {
+  ro_len : nat; ro_zero : bool;
+  ro_all : list (string * bool);            (* All(): name, typed? *)
+  ro_all2 : list (string * bool);           (* a second iteration *)
+  ro_get_same : bool;                       (* every key All yields is found by Get with the same value *)
+  ro_find : list (string * list (string * bool));   (* FindKeys(n) for every decoded name and one absent name *)
+  ro_get_absent : bool;                     (* Get reports absence for a key whose name does not occur *)
+  ro_unknown : list string;                 (* names UnknownFields lists, sorted *)
+  ro_decoded : list string                  (* the decoded top-level field names, sorted *)
+}.
+Inductive case := CNative (n : ncase) | CRestored (u : UM.case) (r : robs).
 
 Definition nstr_eqb (a b : N * string) : bool := N.eqb (fst a) (fst b) && str_eqb (snd a) (snd b).
 Definition bstr_eqb (a b : bool * string) : bool := Bool.eqb (fst a) (fst b) && str_eqb (snd a) (snd b).
@@ -43,12 +56,12 @@ Definition fobs_eqb (a b : fobs) : bool :=
   list_eqb nstr_eqb (fo_all a) (fo_all b) && list_eqb nstr_eqb (fo_all2 a) (fo_all2 b) &&
   list_eqb bstr_eqb (fo_get a) (fo_get b) && list_eqb (list_eqb N.eqb) (fo_find a) (fo_find b).
 
-Definition corr (c : case) : bool :=
-  let s := run (c_prog c) in
-  prog_ok (c_prog c) &&
+Definition ncorr (c : ncase) : bool :=
+  let s := run (nc_prog c) in
+  prog_ok (nc_prog c) &&
   forallb (fun so => match subject_fields s (fst so) with
-                     | Some f => fobs_eqb (snd so) (model_fobs (c_keys c) (c_names c) f)
-                     | None => false end) (c_obs c).
+                     | Some f => fobs_eqb (snd so) (model_fobs (nc_keys c) (nc_names c) f)
+                     | None => false end) (nc_obs c).
 
 (* ---- specification: the coherence equations, evaluated on the observation alone,
         plus the order of last writes computed from the program text ---- *)
@@ -94,8 +107,41 @@ Definition ok1 (p : list stmt) (keys : list key) (names : list string) (so : sub
   | OfErr _ => true
   end.
 
-Definition ok (c : case) : bool :=
-  prog_ok (c_prog c) && forallb (ok1 (c_prog c) (c_keys c) (c_names c)) (c_obs c).
+Definition nok (c : ncase) : bool :=
+  prog_ok (nc_prog c) && forallb (ok1 (nc_prog c) (nc_keys c) (nc_names c)) (nc_obs c).
+
+(* ---- restored: the equations on the observation alone ---- *)
+Definition sb_eqb (a b : string * bool) : bool := str_eqb (fst a) (fst b) && Bool.eqb (snd a) (snd b).
+Fixpoint strictly_sorted (l : list string) : bool :=
+  match l with
+  | a :: ((b :: _) as r) => String.ltb a b && strictly_sorted r
+  | _ => true
+  end.
+Definition rok (r : robs) : bool :=
+  Nat.eqb (ro_len r) (List.length (ro_all r)) &&
+  Bool.eqb (ro_zero r) (Nat.eqb (ro_len r) 0) &&
+  list_eqb sb_eqb (ro_all r) (ro_all2 r) &&
+  (* one fixed order: strictly sorted by name, hence no name twice *)
+  strictly_sorted (map fst (ro_all r)) &&
+  (* every decoded field exactly once, typed or unknown *)
+  list_eqb str_eqb (map fst (ro_all r)) (ro_decoded r) &&
+  ro_get_same r && ro_get_absent r &&
+  (* FindKeys(n): exactly the entries of that name *)
+  forallb (fun nf => list_eqb sb_eqb (snd nf) (filter (fun e => str_eqb (fst e) (fst nf)) (ro_all r))) (ro_find r) &&
+  (* UnknownFields lists exactly the unknown ones *)
+  list_eqb str_eqb (ro_unknown r) (map fst (filter (fun e => negb (snd e)) (ro_all r))).
+
+(* model side for a restored error: Len and All (names, typed?) *)
+Definition rcorr (u : UM.case) (r : robs) : bool :=
+  UM.corr u &&
+  match model_res u with
+  | UOk e => Nat.eqb (ro_len r) (rf_len e) &&
+             list_eqb sb_eqb (ro_all r) (map (fun kv => (ak_name (fst kv), match fst kv with AKTyped _ => true | AKName _ => false end)) (rf_all e))
+  | _ => false
+  end.
+
+Definition ok (c : case) : bool := match c with CNative n => nok n | CRestored _ r => rok r end.
+Definition corr (c : case) : bool := match c with CNative n => ncorr n | CRestored u r => rcorr u r end.
 
 Definition bad_ok (cs : list case) : list N := bad_idx ok cs.
 Definition bad_corr (cs : list case) : list N := bad_idx corr cs.
